@@ -1560,6 +1560,7 @@ class ImportanceNestedSampler(BaseNestedSampler):
         if self.finalised:
             logger.warning("Sampler has already finished sampling! Aborting")
             return self.log_evidence, self.nested_samples_unit
+        self.sampling_start_time = datetime.datetime.now()
         self.initialise()
         logger.info("Starting the nested sampling loop")
 
